@@ -741,7 +741,7 @@ struct Run {
 
 impl Run {
     pub fn matched(&mut self, index: usize) {
-        if self.last == index {
+        if self.length > 0 && self.last == index {
             return;
         } else if self.start + self.length == index {
             self.length += 1;
